@@ -28,14 +28,16 @@ def _worker(job):
     try:
         fr, out, col = I.analyze(body, args=cfgd.get("args"))
         ret = out.locals.get((fr.fid, 0)) if out is not None else None
+        reached = set(col.get("ins", {}).keys())
         heap_out = None
         if out is not None:
             heap_out = dict((k, v) for k, v in out.heap.items() if k == ("self",))
         err = None
     except Imprecision as e:
         ret, heap_out, err = None, None, str(e)
+        reached = set()
     names = dict((fid, nm) for fid, nm in I.frame_names.items())
-    return (entry, label, dict(facts=I.rec.facts, notes=I.rec.notes, ret=ret, self_out=heap_out, err=err,
+    return (entry, label, dict(facts=I.rec.facts, notes=I.rec.notes, ret=ret, self_out=heap_out, err=err, reached=reached, edges=I.edges,
                                diverges=(ret is None and err is None), frames=names, dt=time.time() - t0))
 
 
@@ -50,6 +52,25 @@ class Run:
         self.diverges = d["diverges"]
         self.frames = d["frames"]
         self.self_out = d["self_out"]
+        self.reached = d["reached"]
+        self.edges = d["edges"]
+
+    def taken_reachable(self, fid, start, removed=()):
+        """blocks reachable from `start` along CFG edges that the abstract run actually took"""
+        es = self.edges.get(fid, set())
+        succ = {}
+        for (a, b) in es:
+            succ.setdefault(a, []).append(b)
+        removed = set(removed)
+        seen = set()
+        st = [start]
+        while st:
+            x = st.pop()
+            if x in seen or (x in removed and x != start):
+                continue
+            seen.add(x)
+            st.extend(succ.get(x, ()))
+        return seen
         self.dt = d["dt"]
 
     def by_kind(self, kind):
